@@ -3,6 +3,7 @@ package rules
 import (
 	"fmt"
 	"go/token"
+	"strings"
 
 	"golang.org/x/tools/go/ssa"
 
@@ -58,6 +59,7 @@ func init() {
 			"R3 no SetPrimary/Finalize/DestroyOld after any failed step; R4 nil return of Key ⇒ Create:ok∧Sign:ok∧Finalize:ok; " +
 			"R7 a nil return happens only after the old key was destroyed or the previous primary version name was found empty. R5 Bootstrap: Finalize only after both signing steps succeeded, nil return ⇒ Finalize:ok. R6 the newly created key (operand derived from CreateNewSigningKeyVersion) is never destroyed once Finalize succeeded. R8 (shared with C11.R7) the storage-backed authority's certificate upload returns success after the gate only where the key version's manifest entry was found or appended, so a rotation retried after a fault cannot finalize a primary key that has no listed certificate. " +
 			"Every fault position of the property's quantifier is the :fail edge of one of the tracked calls; crash points between calls are covered by R1's ordering. " +
+			"R9 (= C11.R1/R2/R6) Finalize of the storage-backed authority writes the manifest last and never after a failed upload, and storage/ops.WriteFile returns nil only after Writer, Write and Close all succeeded — otherwise rotate.Key would destroy the old key although the new primary was not durably recorded. " +
 			"Not covered: that the surviving state works (reload + sign), the later fault-free rotation, KMS/HSM behaviour.",
 		Assumptions: []string{"go/types, go/ssa, VTA call graph", "multierr.Combine/Append return nil iff all arguments are nil", "fmt.Errorf/errors.New return non-nil", "interface methods of ManagerInterface/CertificateAuthority are opaque events"},
 		Run:         runC10,
@@ -65,6 +67,11 @@ func init() {
 }
 
 func runC10(c *Ctx) {
+	// R9 = C11.R1/R2/R6: "durably recorded" rests on the storage-backed authority writing the manifest last, never
+	// after a failed upload, and on the write primitive reporting a failed commit (Close) as an error.
+	c.borrow("R9/C11.", runC11, func(rule, _ string) bool {
+		return rule == "R1" || rule == "R2" || rule == "R6" || strings.HasPrefix(rule, "ESP R1") || strings.HasPrefix(rule, "ESP R2") || strings.HasPrefix(rule, "ESP R6")
+	})
 	keysPkg := repoPath("keys")
 	stypPkg := repoPath("sign/types")
 	key := c.fn("R0", "rotate", "Key")
